@@ -15,7 +15,25 @@ def tracker_configs(tier):
     if tier != "thorough":
         out += [dict(store="fixed", match="hungarian", red="max", feat="keypoints", score="oks"),
                 dict(store="local", match="greedy", red="max", feat="centroids", score="euclidean_dist")]
+    # FlowShiftTracker (use_flow=True): candidates are shifted onto the current frame by optical flow on a static texture
+    k = 0
+    for store in ("fixed", "local"):
+        for match in ("hungarian", "greedy"):
+            feats = FEATURES if tier == "thorough" else [FEATURES[k % 3]]
+            k += 1
+            for feat, score in feats:
+                out.append(dict(store=store, match=match, red="mean", feat=feat, score=score, flow=True))
     return out
+
+
+_TEXTURE = {}
+
+
+def texture(ch=1):
+    """static random texture, channels last like LabeledFrame.image: the optical flow between two frames is zero"""
+    if ch not in _TEXTURE:
+        _TEXTURE[ch] = (np.random.default_rng(7).random((960, 1200, ch)) * 255).astype("uint8")
+    return _TEXTURE[ch]
 
 
 def make_tracker(tc, w, thr=0.5):
@@ -24,7 +42,7 @@ def make_tracker(tc, w, thr=0.5):
     return Tracker.from_config(window_size=w, instance_score_threshold=thr,
                                candidates_method="fixed_window" if tc["store"] == "fixed" else "local_queues",
                                features=tc["feat"], scoring_method=tc["score"], scoring_reduction=tc["red"],
-                               track_matching_method=tc["match"])
+                               track_matching_method=tc["match"], use_flow=bool(tc.get("flow")))
 
 
 def run_history(tc, w, frames, thr=0.5):
@@ -37,7 +55,7 @@ def run_history(tc, w, frames, thr=0.5):
         insts = [predicted_instance(d["pts"], score=(0.9 if d["hi"] else 0.3)) for d in dets]
         rec = dict(dets=[dict(a=int(d["a"]), hi=bool(d["hi"])) for d in dets], ret=[], raised=False, err="")
         try:
-            res = tr.track(insts, fi)
+            res = tr.track(insts, fi, image=texture(1 if len(frames) % 2 else 3)) if tc.get("flow") else tr.track(insts, fi)
             for o in res:
                 idx = next((k + 1 for k, x in enumerate(insts) if x is o), 0)
                 trk = -1
